@@ -468,7 +468,9 @@ def native_replay(scratch, hf, harness, test_code, release):
     text = open(dst).read()
     if tname not in text:
         with open(dst, "a") as f:
-            f.write("\n" + test_code + "\n")
+            # a harness module may shadow `vec!` for the sliced statements (container model);
+            # the generated playback test must use the std macro
+            f.write("\n" + test_code.replace(" vec![", " std::vec![") + "\n")
     cmd = ["cargo", "kani", "playback", "-Z", "concrete-playback", "-p", hf.crate, "--lib",
            "--", tname, "--nocapture"]
     env = kani_env()
